@@ -330,6 +330,24 @@ def check_cases(ctx, cases):
             df = from_disk.Content.from_file(path=path.encode())
             routes["from_disk.from_file"] = {k: (df.data[k].hex() if k != "length" else df.data[k]) for k in w4}
             routes["from_disk.to_model"] = as_dict(df.to_model())
+            if n > 0:
+                # the same file rewritten in place (same length, same inode, modification time put back)
+                # and hashed again in the same process
+                st_ = os.lstat(path)
+                flipped = bytes(b ^ 0xFF for b in data)
+                with open(path, "r+b") as fh_:
+                    fh_.write(flipped)
+                os.utime(path, ns=(st_.st_atime_ns, st_.st_mtime_ns))
+                try:
+                    df2 = from_disk.Content.from_file(path=path.encode())
+                    wf = oracle_expected(flipped, DEFAULT + ["length"])
+                    got2 = {k: (df2.data[k].hex() if k != "length" else df2.data[k]) for k in wf}
+                    if got2 != wf:
+                        ctx.fail(case, "route from_disk.from_file: after the file was rewritten in place (same size and modification time) it is not hashed again", "route-differs:from_disk.from_file-rewritten")
+                finally:
+                    with open(path, "r+b") as fh_:
+                        fh_.write(data)
+                    os.utime(path, ns=(st_.st_atime_ns, st_.st_mtime_ns))
             for tag, val in routes.items():
                 if val != w4:
                     ctx.fail(case, f"route {tag}: differs from hashlib on the same bytes", "route-differs:" + tag, {"got": val, "want": w4})
